@@ -29,6 +29,51 @@ def thresholds(rec, m):
     return out
 
 
+def stepped_docs(rng, n):
+    """body: term a in every document, term b in every `stride`-th; frequencies constant over runs of documents"""
+    stride = rng.choice([2, 2, 3])
+    runlen = rng.choice([3, 4, 6, 8])
+    levels = [rng.choice([1, 1, 2, 3, 4]) for _ in range(n // runlen + 2)]
+    docs = {}
+    for i in range(n):
+        tf = levels[i // runlen]
+        body = [[1]] * tf
+        if i % stride == 0:
+            body = body + [[2]] * levels[(i // runlen + 1) % len(levels)]
+        if rng.random() < 0.2:
+            body = body + [[1, 2]]
+        docs["k%02d" % i] = {"t": {"body": body, "title": [[1]] if rng.random() < 0.5 else []}, "n": {}, "b4": 4}
+    return docs
+
+
+def stepped_plan(rng, adocs):
+    """documents in key order, in one segment or two"""
+    ks = sorted(adocs)
+    if rng.random() < 0.7:
+        return [("commit", ks, {"merge": False})]
+    cut = rng.randrange(1, len(ks))
+    return [("commit", ks[:cut], {"merge": False}), ("commit", ks[cut:], {"merge": False})]
+
+
+def stepped_query(rng):
+    def t(c):
+        return {"op": "term", "f": "body", "t": [c], "b4": rng.choice([4, 4, 8])}
+    a, b = (t(1), t(2)) if rng.random() < 0.5 else (t(2), t(1))
+    c = {"op": "term", "f": rng.choice(["body", "title"]), "t": rng.choice([[1], [1, 2]]), "b4": 4}
+    form = rng.choice(["and", "and", "and3", "andmaybe", "or", "andor", "dismax"])
+    if form == "and":
+        return {"op": "and", "kids": [a, b], "b4": 4}
+    if form == "and3":
+        return {"op": "and", "kids": [a, b, c], "b4": 4}
+    if form == "andmaybe":
+        return {"op": "andmaybe", "a": a, "b": b}
+    if form == "or":
+        return {"op": "or", "kids": [a, b], "b4": 4}
+    if form == "dismax":
+        return {"op": "dismax", "kids": [a, b], "b4": 4}
+    return {"op": "and", "kids": [a, {"op": "or", "kids": [b, c], "b4": 4}], "b4": 4}
+
+
 def check(run):
     quick = run.tier == "quick"
     rng = random.Random(run.seed + 1212)
@@ -50,6 +95,16 @@ def check(run):
                                        ndocs=(12, 24), depth=2, nsteps=(12, 30),
                                        ops=["term", "or", "andmaybe", "and", "dismax", "andnot"])
         c11.judge_traces(run, "C12", trs, meta, "c12-long-" + mode)
+        c11.NOTIMPL.clear()
+        run.extra["quality_events"] += sum(1 for t in trs for e in t if e["ev"] in ("quality", "blockscan", "skipq", "replace"))
+    # stepped posting lists: one term in every document, another in every 2nd/3rd, frequencies that jump
+    # between runs of documents - blocks of the two lists cover different document ranges and their
+    # qualities change at different places (what skip_to_quality of a binary matcher has to follow)
+    for mode, nw in (("exact", 6 if quick else 40), ("rank", 3 if quick else 20)):
+        trs, meta, cases = c11.collect(run, rng, nw, 12 if quick else 20, mode, thresholds, quality=True,
+                                       ndocs=(12, 30), nsteps=(6, 16), docgen=stepped_docs, qgen=stepped_query, plangen=stepped_plan, qbias=0.5,
+                                       blocklimits=(1, 2, 3, 4))
+        c11.judge_traces(run, "C12", trs, meta, "c12-stepped-" + mode)
         c11.NOTIMPL.clear()
         run.extra["quality_events"] += sum(1 for t in trs for e in t if e["ev"] in ("quality", "blockscan", "skipq", "replace"))
     if not run.extra.get("quality_events"):
